@@ -13,6 +13,7 @@ import (
 	"github.com/attestantio/vouch/internal/vnd"
 	"github.com/attestantio/vouch/internal/vstub"
 	"github.com/prysmaticlabs/go-bitfield"
+	"github.com/rs/zerolog"
 )
 
 const (
@@ -30,9 +31,14 @@ type c07Provider struct {
 	calls   int
 }
 
-func (p *c07Provider) SyncCommitteeContribution(_ context.Context, _ *api.SyncCommitteeContributionOpts) (*api.Response[*altair.SyncCommitteeContribution], error) {
+func (p *c07Provider) SyncCommitteeContribution(ctx context.Context, _ *api.SyncCommitteeContributionOpts) (*api.Response[*altair.SyncCommitteeContribution], error) {
 	p.calls++
-	vnd.Sleep(p.latency)
+	// like a real HTTP client the node stub gives up when the context it was called with ends
+	select {
+	case <-ctx.Done():
+		return nil, ctx.Err()
+	case <-time.After(p.latency):
+	}
 	switch p.outcome {
 	case oError:
 		return nil, errors.New("mock provider error")
@@ -40,6 +46,14 @@ func (p *c07Provider) SyncCommitteeContribution(_ context.Context, _ *api.SyncCo
 		return &api.Response[*altair.SyncCommitteeContribution]{Data: nil, Metadata: map[string]any{}}, nil
 	}
 	return &api.Response[*altair.SyncCommitteeContribution]{Data: p.data, Metadata: map[string]any{}}, nil
+}
+
+// c07New builds the strategy the way main does: through New.
+func c07New(timeout time.Duration, providers map[string]eth2client.SyncCommitteeContributionProvider) *Service {
+	s, err := New(context.Background(), WithLogLevel(zerolog.Disabled), WithClientMonitor(vstub.ClientMonitor{}),
+		WithTimeout(timeout), WithProcessConcurrency(int64(len(providers))), WithSyncCommitteeContributionProviders(providers))
+	vnd.Assert(err == nil && s != nil, "C07.new.accepted")
+	return s
 }
 
 // VerifC07_ContributionBest: the best sync-committee-contribution strategy.
@@ -51,7 +65,7 @@ func VerifC07_ContributionBestWide() { c07ContributionBest(vnd.IntRange("n", 1, 
 func c07ContributionBest(n, levels int) {
 	timeout := time.Duration(vnd.I64("timeout"))
 	vnd.Assume(timeout >= 2 && timeout <= 60000) // virtual nanoseconds
-	s := &Service{clientMonitor: vstub.ClientMonitor{}, timeout: timeout, syncCommitteeContributionProviders: map[string]eth2client.SyncCommitteeContributionProvider{}}
+	providers := map[string]eth2client.SyncCommitteeContributionProvider{}
 	provs := make([]*c07Provider, n)
 	for i := 0; i < n; i++ {
 		p := &c07Provider{name: []string{"node-a", "node-b", "node-c"}[i]}
@@ -67,8 +81,9 @@ func c07ContributionBest(n, levels int) {
 		}
 		p.data = &altair.SyncCommitteeContribution{Slot: 7, SubcommitteeIndex: uint64(i), AggregationBits: bits}
 		provs[i] = p
-		s.syncCommitteeContributionProviders[p.name] = p
+		providers[p.name] = p
 	}
+	s := c07New(timeout, providers)
 	start := vnd.NowNs()
 	resp, err := s.SyncCommitteeContribution(context.Background(), &api.SyncCommitteeContributionOpts{Slot: 7})
 	elapsed := time.Duration(vnd.NowNs() - start)
